@@ -128,7 +128,8 @@ static uint8_t loop_stop(m_ctx_t *c) {
      * and last module's tried to call m_ctx_deregister(), it returned -EPERM.
      * Gracefully deregister it now.
      */
-    if (m_map_len(c->modules) == 0 && !(c->flags & M_CTX_PERSIST)) {
+    if (m_map_len(c->modules) == 0 && !(c->flags & M_CTX_PERSIST) && m_ctx() == c) {
+        /* (a callback run by the flush above may already have deregistered this ctx, and even registered a new one) */
         m_ctx_deregister();
     }
     m_mem_unref(c);
